@@ -151,7 +151,9 @@ def decode(d):
         around = set(p["id"] for n, parents in nodes if n is h for p in parents)
         if any(f[0] in inside and f[0] != h["id"] for f in faults):
             return False
-        return not any(n["tag"] == "use" and (n.get("href") in inside or n.get("href") in around or n["id"] in inside) for n, _ in nodes)
+        targets = dict((n["id"], n.get("href")) for n, _ in nodes if n["tag"] == "use")
+        targets.update((f[0], f[2]) for f in faults if f[1] == "href")  # (a fault may have retargeted the use)
+        return not any(t in inside or t in around or u in inside for u, t in targets.items())
 
     faulty = [h for h in faulty if plain(h)]
     if faulty and d.chance(2, 3):
